@@ -586,7 +586,14 @@ class Canon(object):
             if last.orelse:
                 nt.orelse = self._push(last.orelse, x, nxt, is_none_true)
             else:
-                nt.body = self._push(last.body, x, nxt, is_none_true)
+                # what follows the try runs OUTSIDE the protection of its handlers: it goes into an else part, never into the body
+                if last.body and not isinstance(last.body[-1], (ast.If, ast.Try)):
+                    pushed = self._push(last.body, x, nxt, is_none_true)
+                    nt.orelse = pushed[len(last.body):]
+                else:
+                    nt.orelse = [copy.deepcopy(nxt)]
+                if not nt.orelse:
+                    nt.orelse = []
             nt.handlers = []
             for h in last.handlers:
                 nh = copy.copy(h)
@@ -782,6 +789,244 @@ class Canon(object):
             T().visit(fn)
         self.hit('N24')
         self.ex.visit(fn)
+
+    def alias_fields(self, fn):
+        """N48  a local bound once to a field (`table = self.state_transitions`, `row = self.cur_r`) all of whose reads happen before
+        anything could re-bind the field is the field itself: the statements from the binding to the last read are in the same
+        block, make no call (the last one may be a single call whose arguments hold the reads -- they are evaluated before it
+        runs), and store to no attribute of that name nor to the root of the chain.  "Look the field up once" micro-optimisations."""
+        if any(isinstance(n, (ast.FunctionDef, ast.AsyncFunctionDef, ast.Lambda, ast.ClassDef, ast.Global, ast.Nonlocal)) for n in ast.walk(fn) if n is not fn):
+            return
+        if any(isinstance(n, ast.Call) and isinstance(n.func, ast.Name) and n.func.id in ('locals', 'vars', 'eval', 'exec') for n in ast.walk(fn)):
+            return
+        stores, nloads = {}, {}
+        for n in ast.walk(fn):
+            if isinstance(n, ast.Name):
+                if isinstance(n.ctx, (ast.Store, ast.Del)):
+                    stores[n.id] = stores.get(n.id, 0) + 1
+                else:
+                    nloads[n.id] = nloads.get(n.id, 0) + 1
+            elif isinstance(n, ast.ExceptHandler) and n.name:
+                stores[n.name] = stores.get(n.name, 0) + 2
+        params = set(a.arg for a in fn.args.args + fn.args.kwonlyargs + fn.args.posonlyargs)
+        QUIET_CALLS = ('len', 'isinstance', 'type', 'id', 'callable')
+
+        def loud_calls(e):
+            return [k for k in ast.walk(e) if isinstance(k, (ast.Await, ast.Yield, ast.YieldFrom)) or
+                    (isinstance(k, ast.Call) and not (isinstance(k.func, ast.Name) and k.func.id in QUIET_CALLS and k.func.id not in stores))]
+
+        def touches(st, attrs, root):
+            for n in ast.walk(st):
+                if isinstance(n, ast.Attribute) and isinstance(n.ctx, (ast.Store, ast.Del)) and n.attr in attrs:
+                    return True
+                if isinstance(n, ast.Name) and isinstance(n.ctx, (ast.Store, ast.Del)) and n.id == root:
+                    return True
+                if isinstance(n, ast.ExceptHandler) and n.name == root:
+                    return True
+            return False
+
+        def count(st, x):
+            return sum(1 for n in ast.walk(st) if isinstance(n, ast.Name) and n.id == x and isinstance(n.ctx, ast.Load))
+
+        def last_ok(st, x):
+            """a simple statement whose only call is its value, the reads of x sitting in that call's own (call-free) arguments"""
+            if isinstance(st, ast.Expr):
+                v, rest = st.value, []
+            elif isinstance(st, ast.Return) and st.value is not None:
+                v, rest = st.value, []
+            elif isinstance(st, ast.Assign):
+                v, rest = st.value, st.targets
+            else:
+                return False
+            if not isinstance(v, ast.Call) or any(count(t, x) or loud_calls(t) for t in rest):
+                return False
+            parts = [v.func] + list(v.args) + [k.value for k in v.keywords]
+            if isinstance(v.func, ast.Name) and v.func.id == x:
+                return False
+            return not any(loud_calls(p_) for p_ in parts)
+
+        todo = []
+
+        def blocks(stmts):
+            for i, st in enumerate(stmts):
+                for f_ in ('body', 'orelse', 'finalbody'):
+                    v = getattr(st, f_, None)
+                    if isinstance(v, list) and v and isinstance(v[0], ast.stmt):
+                        blocks(v)
+                if isinstance(st, ast.Try):
+                    for h in st.handlers:
+                        blocks(h.body)
+                if not (isinstance(st, ast.Assign) and len(st.targets) == 1 and isinstance(st.targets[0], ast.Name)):
+                    continue
+                x = st.targets[0].id
+                if stores.get(x) != 1 or x in params or not _chain(st.value) or not nloads.get(x):
+                    continue
+                attrs, e = set(), st.value
+                while isinstance(e, ast.Attribute):
+                    attrs.add(e.attr)
+                    e = e.value
+                root = e.id
+                if root != 'self' and not (root in params and root not in stores):
+                    continue
+                seen, ok = 0, False
+                for nx in stmts[i + 1:]:
+                    k = count(nx, x)
+                    if touches(nx, attrs, root):
+                        break
+                    if loud_calls(nx):
+                        if k and seen + k == nloads[x] and last_ok(nx, x):
+                            seen += k
+                            ok = True
+                        break
+                    seen += k
+                    if seen == nloads[x]:
+                        ok = True
+                        break
+                if ok and seen == nloads[x]:
+                    todo.append(st)
+        blocks(fn.body)
+        if not todo:
+            return
+        subst = dict((d.targets[0].id, d) for d in todo)
+
+        class T(ast.NodeTransformer):
+            def visit_Name(self_, n):
+                if isinstance(n.ctx, ast.Load) and n.id in subst:
+                    return ast.copy_location(copy.deepcopy(subst[n.id].value), n)
+                return n
+
+            def visit_Assign(self_, n):
+                if any(n is d for d in subst.values()):
+                    return ast.copy_location(ast.Pass(), n)
+                return self_.generic_visit(n)
+        T().visit(fn)
+        for _ in todo:
+            self.hit('N48')
+        self.ex.visit(fn)
+
+    def coalesce_copies(self, fn):
+        """N49  `y = x` (x, y locals) where y lives only in the statements that follow in the same block, x is not mentioned there, and x
+        is dead afterwards (never read again before it is re-bound: decided by a backward liveness pass over the statement structure,
+        exception edges into enclosing handlers included): y is x.  This is what is left when an extracted helper re-binds its
+        parameter (`data = data[:i]`): the inliner has to give the helper its own copy of the caller's variable."""
+        if any(isinstance(n, (ast.FunctionDef, ast.AsyncFunctionDef, ast.Lambda, ast.ClassDef, ast.Global, ast.Nonlocal)) for n in ast.walk(fn) if n is not fn):
+            return
+        if any(isinstance(n, ast.Call) and isinstance(n.func, ast.Name) and n.func.id in ('locals', 'vars', 'eval', 'exec') for n in ast.walk(fn)):
+            return
+
+        def occ(st, x, ctxs=(ast.Load, ast.Store, ast.Del)):
+            return sum(1 for n in ast.walk(st) if (isinstance(n, ast.Name) and n.id == x and isinstance(n.ctx, ctxs)) or
+                       (isinstance(n, ast.ExceptHandler) and n.name == x))
+
+        def liveness(x):
+            out_of, exc_of = {}, {}
+
+            def uses(e):
+                return e is not None and occ(e, x, (ast.Load,)) > 0
+
+            def blk(stmts, out, ctx):
+                live = out
+                for st in reversed(stmts):
+                    live = stmt(st, live, ctx)
+                return live
+
+            def stmt(st, out, ctx):
+                out_of[id(st)] = out_of.get(id(st), False) or out
+                exc_of[id(st)] = exc_of.get(id(st), False) or ctx['exc']
+                if isinstance(st, ast.Return):
+                    return uses(st.value) or (ctx['fin'])
+                if isinstance(st, ast.Raise):
+                    return uses(st) or ctx['exc'] or ctx['fin']
+                if isinstance(st, ast.Break):
+                    return ctx['brk']
+                if isinstance(st, ast.Continue):
+                    return ctx['cont']
+                if isinstance(st, ast.If):
+                    return uses(st.test) or blk(st.body, out, ctx) or blk(st.orelse, out, ctx) or ctx['exc']
+                if isinstance(st, (ast.While, ast.For, ast.AsyncFor)):
+                    head = False
+                    is_for = not isinstance(st, ast.While)
+                    kills = is_for and any(isinstance(n, ast.Name) and n.id == x for n in ast.walk(st.target))
+                    for _ in range(3):
+                        inner = dict(ctx, brk=out, cont=head)
+                        b_in = blk(st.body, head, inner)
+                        if kills:
+                            b_in = False
+                        after = blk(st.orelse, out, ctx)
+                        head = (uses(st.test) if not is_for else False) or b_in or after or ctx['exc']
+                    return head or (is_for and uses(st.iter))
+                if isinstance(st, (ast.With, ast.AsyncWith)):
+                    return any(uses(it.context_expr) for it in st.items) or blk(st.body, out, ctx) or ctx['exc']
+                if isinstance(st, ast.Try):
+                    fin_in = blk(st.finalbody, out or ctx['exc'] or ctx['fin'] or ctx['brk'] or ctx['cont'], ctx) if st.finalbody else out
+                    h_in = False
+                    for h in st.handlers:
+                        h_in = h_in or (False if h.name == x else blk(h.body, fin_in, dict(ctx, fin=ctx['fin'] or (bool(st.finalbody) and fin_in))))
+                    inner = dict(ctx, exc=h_in or ctx['exc'] or (bool(st.finalbody) and fin_in), fin=ctx['fin'] or (bool(st.finalbody) and fin_in))
+                    return blk(st.body, blk(st.orelse, fin_in, inner), inner) or h_in
+                # a simple statement
+                if uses(st) or (isinstance(st, ast.AugAssign) and isinstance(st.target, ast.Name) and st.target.id == x):
+                    return True
+                if isinstance(st, ast.Assign) and any(isinstance(t, ast.Name) and t.id == x for t in st.targets):
+                    return ctx['exc']
+                return out or ctx['exc']
+            blk(fn.body, False, dict(brk=False, cont=False, exc=False, fin=False))
+            return out_of, exc_of
+
+        done = [False]
+
+        def blocks(stmts):
+            for i, st in enumerate(stmts):
+                for f_ in ('body', 'orelse', 'finalbody'):
+                    v = getattr(st, f_, None)
+                    if isinstance(v, list) and v and isinstance(v[0], ast.stmt):
+                        blocks(v)
+                        if done[0]:
+                            return
+                if isinstance(st, ast.Try):
+                    for h in st.handlers:
+                        blocks(h.body)
+                        if done[0]:
+                            return
+                if not (isinstance(st, ast.Assign) and len(st.targets) == 1 and isinstance(st.targets[0], ast.Name) and isinstance(st.value, ast.Name)):
+                    continue
+                y, x = st.targets[0].id, st.value.id
+                if x == y or x in ('self', 'None', 'True', 'False') or y in params:
+                    continue
+                # x must be a local (bound somewhere in the function or a parameter), not a global
+                if x not in params and not occ(fn, x, (ast.Store,)):
+                    continue
+                total_y = occ(fn, y)
+                j, seen = i, 1
+                for k in range(i + 1, len(stmts)):
+                    n_ = occ(stmts[k], y)
+                    if n_:
+                        j, seen = k, seen + n_
+                if seen != total_y or j == i:
+                    continue
+                if any(occ(stmts[k], x) for k in range(i + 1, j + 1)):
+                    continue
+                out_of, exc_of = liveness(x)
+                if out_of.get(id(stmts[j]), True) or exc_of.get(id(stmts[i]), True):
+                    continue
+                for k in range(i + 1, j + 1):
+                    for n in ast.walk(stmts[k]):
+                        if isinstance(n, ast.Name) and n.id == y:
+                            n.id = x
+                stmts[i] = ast.copy_location(ast.Pass(), st)
+                self.hit('N49')
+                done[0] = True
+                return
+        params = set(a.arg for a in fn.args.args + fn.args.kwonlyargs + fn.args.posonlyargs)
+        if fn.args.vararg:
+            params.add(fn.args.vararg.arg)
+        if fn.args.kwarg:
+            params.add(fn.args.kwarg.arg)
+        for _ in range(6):
+            done[0] = False
+            blocks(fn.body)
+            if not done[0]:
+                break
 
     def split_webs(self, fn):
         """N34  a local that is bound several times to plain access paths (`stream = spawn._before` in one branch, `stream =
@@ -1278,6 +1523,31 @@ class Canon(object):
                 fn.body = [_MC().visit(st) for st in fn.body]
                 fn.args.defaults = [_MC().visit(d) for d in fn.args.defaults]
             self.hit('N47')
+        # class-level named constants (NEW names only): `self._NO_LIMIT = 1e6` in the class body, read as self._NO_LIMIT / Class._NO_LIMIT
+        for cls in [x for x in tree.body if isinstance(x, ast.ClassDef)]:
+            cc = {}
+            for st in cls.body:
+                if isinstance(st, ast.Assign) and len(st.targets) == 1 and isinstance(st.targets[0], ast.Name) and isinstance(st.value, ast.Constant) \
+                        and st.value.value is not None and not isinstance(st.value.value, bool):
+                    nm = st.targets[0].id
+                    if nm not in KNOWN_FIELDS and nm not in ('_read_reached_eof', 'buffer', 'encoding', 'flag_eof', 'pid', 'transport', 'use_native_pty_fork'):
+                        cc[nm] = st.value
+            for nm in list(cc):
+                # never stored as an attribute anywhere in the module, bound once in the class body
+                if any(isinstance(n, ast.Attribute) and n.attr == nm and isinstance(n.ctx, (ast.Store, ast.Del)) for n in ast.walk(tree)) or \
+                        sum(1 for st in cls.body for x in ast.walk(st) if isinstance(x, ast.Name) and x.id == nm and isinstance(x.ctx, ast.Store)
+                            and not isinstance(st, (ast.FunctionDef, ast.AsyncFunctionDef))) != 1:
+                    del cc[nm]
+            if cc:
+                class _CC(ast.NodeTransformer):
+                    def visit_Attribute(self_, n):
+                        self_.generic_visit(n)
+                        if isinstance(n.ctx, ast.Load) and n.attr in cc and isinstance(n.value, ast.Name) and n.value.id in ('self', cls.name):
+                            return ast.copy_location(copy.deepcopy(cc[n.attr]), n)
+                        return n
+                for fn in [x for x in cls.body if isinstance(x, (ast.FunctionDef, ast.AsyncFunctionDef))]:
+                    fn.body = [_CC().visit(st) for st in fn.body]
+                self.hit('N47')
         self.mod_tuples = self._module_tuples(tree)
         if self.mod_tuples:
             mt = self.mod_tuples
@@ -1301,6 +1571,26 @@ class Canon(object):
                     if isinstance(n.iter, ast.Name) and n.iter.id in mt:
                         n.iter = copy.deepcopy(mt[n.iter.id])
                     return n
+
+                def visit_ListComp(self_, n):
+                    # N31c  `[E(x) for x in NAMES]` over a module-level tuple of constants is the display `[E('a'), E('b'), ...]`
+                    self_.generic_visit(n)
+                    g_ = n.generators[0]
+                    if len(n.generators) == 1 and not g_.ifs and not g_.is_async and isinstance(g_.iter, ast.Name) and g_.iter.id in mt \
+                            and isinstance(g_.target, ast.Name) and all(isinstance(e_, ast.Constant) for e_ in mt[g_.iter.id].elts) \
+                            and not any(isinstance(x_, (ast.Lambda, ast.ListComp, ast.SetComp, ast.DictComp, ast.GeneratorExp, ast.NamedExpr)) for x_ in ast.walk(n.elt)):
+                        tv = g_.target.id
+                        elts = []
+                        for e_ in mt[g_.iter.id].elts:
+                            class _S(ast.NodeTransformer):
+                                def visit_Name(s_, x):
+                                    if x.id == tv and isinstance(x.ctx, ast.Load):
+                                        return ast.copy_location(ast.Constant(value=e_.value), x)
+                                    return x
+                            elts.append(_S().visit(copy.deepcopy(n.elt)))
+                        self.hit('N31')
+                        return ast.copy_location(ast.List(elts=elts, ctx=ast.Load()), n)
+                    return n
             # (not inside functions that bind a local of the same name)
             for fn in ast.walk(tree):
                 if isinstance(fn, (ast.FunctionDef, ast.AsyncFunctionDef)):
@@ -1317,6 +1607,8 @@ class Canon(object):
                 self.fold_sentinels(fn)
                 self.split_webs(fn)
                 self.propagate(fn)
+                self.alias_fields(fn)
+                self.coalesce_copies(fn)
         tree.body = self.block(tree.body)
         n39 = 0
         if True:
